@@ -469,6 +469,9 @@ fn c20(quick: bool) -> PropRun {
         let small = scripts_upto(3, &[0], &MODES, &[0, 40, 2000], &[0, 1]);
         for s in small.iter() { scs.push(spec("C20.all", &grid[0], s, env_live(5), 2, oracles)); }
     }
+    // a misbehaving peer: the state-relative hostile frames of C03 handed to either side of a session in which TimeSensitive packets are
+    // dequeued but cannot start; the counter must survive whatever the peer acknowledges (an underflow of it is a C20 verdict)
+    scs.push(crate::c03::lw_hostile("C20.hostile-ts-session", LwCfg { pwin: 4096, fwin: 4096, ..LwCfg::small() }, crate::c03::ts_session(), if quick { 4 } else { 8 }, false));
     // the same quantity at the API of Client and RemoteClient (endpoint world): echo / transfer scenarios of C08 and C09 and bulk-ish survive scripts
     for mut sp in crate::props_ew::c08_specs(quick).into_iter().chain(crate::props_ew::c09_specs(quick).into_iter()) {
         if sp.tag.contains("blackout") || sp.tag.contains("full-server") { continue; }
